@@ -65,7 +65,9 @@ func c08AsmOp(op string, pub, sec []byte) {
 }
 
 // TestC08AsmWorker is not a test by itself: the driver runs it under
-//   valgrind --tool=callgrind --dump-before='*c08AsmMark*' ...
+//
+//	valgrind --tool=callgrind --dump-before='*c08AsmMark*' ...
+//
 // with C08_OP and C08_ITEMS="pubhex:sechex,pubhex:sechex,...".
 func TestC08AsmWorker(t *testing.T) {
 	items := os.Getenv("C08_ITEMS")
